@@ -131,6 +131,10 @@ def gen_spec(seed, profile="core", variant=None, templates=None):
         if variant == "starved":
             lat = (2, 3, 5)
         ia = rnd_delay_desc(rng, lat, allow_zero=False)
+        if blocking and ia["kind"] in ("callable", "gen") and rng.random() < 0.35:
+            # a blocking source may have zero inter-arrival times (items created at t = 0, back-to-back items);
+            # never all zeros: that is an infinitely fast source
+            ia["seq"] = [0] * rng.randint(1, 2) + ia["seq"]
         if variant == "finite":
             if ia["kind"] == "const":
                 ia["kind"] = "callable"
@@ -203,7 +207,7 @@ def gen_spec(seed, profile="core", variant=None, templates=None):
         conn("M0", "K0")
         conn("M0", "K1")
     else:  # pack / packunpack
-        recipe = rng.choice(([1, 1], [1, 2], [1, 3, 1], [1, 1, 2], [1, 2], [1, 0, 2], [1, 3, 0], [1, 1, 1, 1]))
+        recipe = rng.choice(([1, 1], [1, 2], [1, 3, 1], [1, 1, 2], [1, 2], [1, 0, 2], [1, 3, 0], [1, 1, 1, 1], [1, 2, 0, 1], [1, 0, 1, 2]))
         src("SP", "pallet")
         for i in range(1, len(recipe)):
             src(f"SI{i}")
